@@ -6,6 +6,7 @@ import NodisVerif.Model.Handler3
 import NodisVerif.Driver.FragOps
 import NodisVerif.Driver.ProtoOps
 import NodisVerif.Driver.LinkedListOps
+import NodisVerif.Driver.SlOps
 import NodisVerif.Model.Feed
 open NodisVerif
 
@@ -18,6 +19,8 @@ structure DState where
   feeds : List (String × List FeedOp) := []      -- per watched instance: records not yet drained (oldest first)
   patterns : List Bytes := []                    -- patterns of the second (filtered) watcher
   ll : LinkedList.PList := {}                    -- the bare pointer-level list of the `ll` lines (C02)
+  sl : Skiplist.SL := Skiplist.makeSkiplist      -- the pointer-level skiplist of the `sl` ops
+  slz : Skiplist.PZSet := Skiplist.PZSet.empty   -- the pointer-level sorted set of the `slz` ops
 
 def DState.sv (d : DState) : Server := ((d.inst.find? (·.1 == d.cur)).map (·.2)).getD {}
 def DState.putSv (d : DState) (sv : Server) : DState :=
@@ -42,6 +45,8 @@ def step (d : DState) (line : String) : DState × String :=
   | "ck" :: _ | "dk" :: _ | "ev" :: _ => (d, Driver.codecOp toks)
   | "frag" :: rest => (d, Driver.fragOp rest)
   | "ll" :: rest => let (l, out) := Driver.llOp d.ll rest; ({ d with ll := l }, out)
+  | "sl" :: rest => let (sl, out) := Driver.slOp d.sl rest; ({ d with sl := sl }, out)
+  | "slz" :: rest => let (p, out) := Driver.slzOp d.slz rest; ({ d with slz := p }, out)
   | "pev" :: rest => let (p, out) := Driver.protoOp d.proto rest; ({ d with proto := p }, out)
   | "bev" :: rest => let (b, out) := Driver.blockOp d.block rest; ({ d with block := b }, out)
   | "gev" :: rest => let (g, out) := Driver.gateOp d.gate rest; ({ d with gate := g }, out)
